@@ -137,48 +137,130 @@ theorem C18_dump (p : String × List Eff) (hp : p ∈ Gen.dumpScripts)
     (run p.2 obj fs path).1 = fs :=
   C18_general p.2 (C18_every_dump.1 p hp) obj fs path eff e hr hne
 
+/-! ### scripts of the standard shape: what a dump does when nothing / something refuses -/
+
+/-- both `dump` methods have the standard shape `validate* getParser validate* serialize validate* openW buildFile`
+(decided on the regenerated scripts; a reordering that keeps the shape keeps every theorem below) -/
+theorem C18_shape : ∀ p ∈ Gen.dumpScripts, standardShape p.2 = true := by decide
+
+theorem phases_done_nil : ∀ (sc : List Eff), phases .done sc = some .done → sc = [] := by
+  intro sc h
+  cases sc with
+  | nil => rfl
+  | cons e r => cases e <;> simp [phases, phaseStep] at h
+
+/-- all steps succeed up to the encoder: the destination ends up holding what `build_file` wrote -/
+theorem exec_standard (o : DumpObj) (fs : FS) (path : Path) (t0 t : Content)
+    (h1 : o.validate = .ok ()) (h2 : o.getParser = .ok t0) (h3 : o.serialize = .ok t) (h4 : o.openErr = none) :
+    ∀ (sc : List Eff) (p : Phase), p ≠ .done → phases p sc = some .done →
+      (exec o path sc (stateAt fs path t0 t p)).st.fs
+          = fs.write path (match o.buildFail with | none => t | some (n, _) => t.take n)
+      ∧ (exec o path sc (stateAt fs path t0 t p)).result
+          = (match o.buildFail with | none => .ok () | some (_, e) => .error (.buildFile, e)) := by
+  have hw : ∀ c : Content, (fs.write path []).write path c = fs.write path c := by
+    intro c; funext q; by_cases hq : q = path <;> simp [FS.write, hq]
+  have hcur : (fs.write path []) path = some [] := by simp [FS.write]
+  intro sc
+  induction sc with
+  | nil => intro p hp h; simp only [phases, Option.some.injEq] at h; exact absurd h hp
+  | cons e rest ih =>
+    intro p hp h
+    cases p <;> cases e <;> simp only [phases, phaseStep] at h <;> try (exact absurd h (by simp))
+    · -- init, validate
+      simp only [exec, step, stateAt, h1, liftErr]
+      exact ih .init (by simp) h
+    · -- init, getParser
+      simp only [exec, step, stateAt, h2]
+      exact ih .parsed (by simp) h
+    · -- parsed, validate
+      simp only [exec, step, stateAt, h1, liftErr]
+      exact ih .parsed (by simp) h
+    · -- parsed, serialize
+      simp only [exec, step, stateAt, h3]
+      exact ih .serialized (by simp) h
+    · -- serialized, validate
+      simp only [exec, step, stateAt, h1, liftErr]
+      exact ih .serialized (by simp) h
+    · -- serialized, openW
+      simp only [exec, step, stateAt, h4]
+      exact ih .opened (by simp) h
+    · -- opened, buildFile
+      have hr := phases_done_nil rest h
+      subst hr
+      cases hb : o.buildFail with
+      | none => simp [exec, step, stateAt, hb, hcur, hw]
+      | some ne => obtain ⟨n, e⟩ := ne; simp [exec, step, stateAt, hb, hcur, hw]
+
+/-- something refuses before the open (the top-level `validate()` or, if that passes, `serialize`): the script stops
+there, with that error, and the file system is the one it started with -/
+theorem exec_standard_refused (o : DumpObj) (fs : FS) (path : Path) (t0 : Content) (e : Err)
+    (h2 : o.getParser = .ok t0) (h3 : o.serialize = .error e) (hv : o.validate = .ok () ∨ o.validate = .error e) :
+    ∀ (sc : List Eff) (p : Phase), (p = .init ∨ p = .parsed) → phases p sc = some .done →
+      ∃ eff, (eff = .validate ∨ eff = .serialize)
+        ∧ (exec o path sc (stateAt fs path t0 t0 p)).st.fs = fs
+        ∧ (exec o path sc (stateAt fs path t0 t0 p)).result = .error (eff, e) := by
+  intro sc
+  induction sc with
+  | nil => intro p hp h; simp only [phases, Option.some.injEq] at h; rcases hp with hp | hp <;> rw [hp] at h <;> cases h
+  | cons x rest ih =>
+    intro p hp h
+    rcases hp with hp | hp <;> subst hp <;> cases x <;> simp only [phases, phaseStep] at h <;> try (exact absurd h (by simp))
+    · -- init, validate
+      rcases hv with hv | hv
+      · simp only [exec, step, stateAt, hv, liftErr]; exact ih .init (.inl rfl) h
+      · exact ⟨.validate, .inl rfl, by simp [exec, step, stateAt, hv, liftErr]⟩
+    · -- init, getParser
+      simp only [exec, step, stateAt, h2]; exact ih .parsed (.inr rfl) h
+    · -- parsed, validate
+      rcases hv with hv | hv
+      · simp only [exec, step, stateAt, hv, liftErr]; exact ih .parsed (.inr rfl) h
+      · exact ⟨.validate, .inl rfl, by simp [exec, step, stateAt, hv, liftErr]⟩
+    · -- parsed, serialize
+      exact ⟨.serialize, .inr rfl, by simp [exec, step, stateAt, h3]⟩
+
 /-! ### every nested validator -/
 
 /-- Sections as a tree of validator outcomes.  If ANY reached validator of ANY nested section refuses
-(`top.check = .error e`), `dump` – the real scripts – FAILS (it does not silently write something) with that error,
-before anything was opened, and the file system is untouched: whether the top-level `validate()` saw the problem or
-only a nested section writer did. -/
-theorem C18_nested (p : String × List Eff) (hp : p ∈ Gen.dumpScripts)
+(`top.check = .error e`), `dump` through ANY script of the standard shape FAILS (it does not silently write
+something) with that error, at `validate()` or inside `serialize`, before anything was opened, and the file system
+is untouched: whether the top-level `validate()` saw the problem or only a nested section writer did. -/
+theorem C18_nested (sc : List Eff) (hs : standardShape sc = true)
     (top : Sect) (text empty : Content) (fs : FS) (path : Path) (e : Err) (h : top.check = .error e) :
     ∃ eff, (eff = .validate ∨ eff = .serialize) ∧
-      run p.2 (DumpObj.ofSect top text empty) fs path = (fs, .error (eff, e)) := by
-  have hcases : p.2 = Gen.dumpScript_MetadataBase ∨ p.2 = Gen.dumpScript_TreeInfo := by
-    simp only [Gen.dumpScripts, List.mem_cons, List.not_mem_nil, or_false] at hp
-    rcases hp with hp | hp <;> simp [hp]
-  have hscript : p.2 = [.validate, .getParser, .serialize, .openW, .buildFile] := by
-    rcases hcases with hc | hc <;> rw [hc] <;> rfl
-  rw [hscript]
+      run sc (DumpObj.ofSect top text empty) fs path = (fs, .error (eff, e)) := by
+  have hph : phases .init sc = some .done := by simpa [standardShape] using hs
   obtain ⟨vs, kids⟩ := top
-  cases hv : firstErr vs with
-  | error e' =>
-    have : e' = e := by simp [Sect.check, hv] at h; exact h
-    subst this
-    exact ⟨.validate, .inl rfl, by simp [run, exec, step, DumpObj.ofSect, Sect.validators, hv, liftErr]⟩
-  | ok u =>
-    cases u
-    exact ⟨.serialize, .inr rfl, by simp [run, exec, step, DumpObj.ofSect, Sect.validators, hv, liftErr, h]⟩
+  have hv : (DumpObj.ofSect (.node vs kids) text empty).validate = .ok ()
+      ∨ (DumpObj.ofSect (.node vs kids) text empty).validate = .error e := by
+    simp only [DumpObj.ofSect, Sect.validators]
+    cases hf : firstErr vs with
+    | ok u => cases u; exact .inl rfl
+    | error e' => simp [Sect.check, hf] at h; subst h; exact .inr rfl
+  obtain ⟨eff, he, h1, h2⟩ := exec_standard_refused (DumpObj.ofSect (.node vs kids) text empty) fs path empty e
+    rfl (by simp [DumpObj.ofSect, h]) hv sc .init (.inl rfl) hph
+  refine ⟨eff, he, ?_⟩
+  simp only [run]
+  simp only [stateAt] at h1 h2
+  rw [h1, h2]
 
-/-- and when nothing refuses, the same scripts write exactly the serialised text to the destination and touch
-nothing else (so the theorems above are not about a `dump` that never writes) -/
-theorem C18_success (p : String × List Eff) (hp : p ∈ Gen.dumpScripts)
+/-- the same for the real scripts -/
+theorem C18_nested_here (p : String × List Eff) (hp : p ∈ Gen.dumpScripts)
+    (top : Sect) (text empty : Content) (fs : FS) (path : Path) (e : Err) (h : top.check = .error e) :
+    ∃ eff, (eff = .validate ∨ eff = .serialize) ∧
+      run p.2 (DumpObj.ofSect top text empty) fs path = (fs, .error (eff, e)) :=
+  C18_nested p.2 (C18_shape p hp) top text empty fs path e h
+
+/-- and when nothing refuses, a script of the standard shape writes exactly the serialised text to the destination
+and touches nothing else (so the theorems above are not about a `dump` that never writes) -/
+theorem C18_success (sc : List Eff) (hs : standardShape sc = true)
     (obj : DumpObj) (fs : FS) (path : Path) (t0 t : Content)
     (h1 : obj.validate = .ok ()) (h2 : obj.getParser = .ok t0) (h3 : obj.serialize = .ok t)
     (h4 : obj.openErr = none) (h5 : obj.buildFail = none) :
-    run p.2 obj fs path = (fs.write path t, .ok ()) := by
-  have hscript : p.2 = [.validate, .getParser, .serialize, .openW, .buildFile] := by
-    simp only [Gen.dumpScripts, List.mem_cons, List.not_mem_nil, or_false] at hp
-    rcases hp with hp | hp <;> rw [hp] <;> rfl
-  rw [hscript]
-  have hw : (fs.write path []).write path t = fs.write path t := by
-    funext q
-    by_cases hq : q = path <;> simp [FS.write, hq]
-  have hcur : (fs.write path []) path = some [] := by simp [FS.write]
-  simp [run, exec, step, h1, h2, h3, h4, h5, liftErr, hcur, hw]
+    run sc obj fs path = (fs.write path t, .ok ()) := by
+  have hph : phases .init sc = some .done := by simpa [standardShape] using hs
+  obtain ⟨a, b⟩ := exec_standard obj fs path t0 t h1 h2 h3 h4 sc .init (by simp) hph
+  simp only [stateAt, h5] at a b
+  simp only [run, a, b]
 
 /-! ### what is NOT guaranteed -/
 
@@ -196,24 +278,27 @@ theorem C18_counterexample :
     <;> simp [run, exec, step, liftErr, FS.write]
 
 /-- A failure of the ENCODER inside `build_file` (after the destination was opened) is outside the guarantee for
-every script that opens before it writes – the current ones included: the old content is replaced by whatever had
-been written when the encoder gave up.  (On the real library: an `Rpms`/`Modules`/`ExtraFiles` payload holding a
-value `json` cannot encode, e.g. a `set`.) -/
-theorem C18_encoder_failure_not_covered (p : String × List Eff) (hp : p ∈ Gen.dumpScripts) :
-    ∃ (obj : DumpObj) (fs : FS) (path : Path),
-      (run p.2 obj fs path).2 = .error (.buildFile, .typeError)
-      ∧ fs path = some "good".toList ∧ (run p.2 obj fs path).1 path = some "{".toList := by
-  have hscript : p.2 = [.validate, .getParser, .serialize, .openW, .buildFile] := by
-    simp only [Gen.dumpScripts, List.mem_cons, List.not_mem_nil, or_false] at hp
-    rcases hp with hp | hp <;> rw [hp] <;> rfl
-  rw [hscript]
-  refine ⟨{ serialize := .ok "{}".toList, buildFail := some (1, .typeError) }, (fun _ => some "good".toList), "p".toList, ?_, rfl, ?_⟩
-    <;> simp [run, exec, step, liftErr, FS.write]
+every script of the standard shape – the current ones included (`C18_shape`): the old content is replaced by whatever
+had been written when the encoder gave up.  (On the real library: an `Rpms`/`Modules`/`ExtraFiles` payload holding a
+value `json` cannot encode, e.g. a `set` – finding F19.) -/
+theorem C18_encoder_failure_not_covered (sc : List Eff) (hs : standardShape sc = true)
+    (obj : DumpObj) (fs : FS) (path : Path) (t0 t : Content) (n : Nat) (e : Err)
+    (h1 : obj.validate = .ok ()) (h2 : obj.getParser = .ok t0) (h3 : obj.serialize = .ok t)
+    (h4 : obj.openErr = none) (h5 : obj.buildFail = some (n, e)) :
+    run sc obj fs path = (fs.write path (t.take n), .error (.buildFile, e)) := by
+  have hph : phases .init sc = some .done := by simpa [standardShape] using hs
+  obtain ⟨a, b⟩ := exec_standard obj fs path t0 t h1 h2 h3 h4 sc .init (by simp) hph
+  simp only [stateAt, h5] at a b
+  simp only [run, a, b]
 
 /-! ### non-vacuity -/
 example : noFallibleAfterOpen [.validate, .getParser, .serialize, .openW, .buildFile] = true := by decide
 example : ∃ obj : DumpObj, ∃ fs path eff e, (run Gen.dumpScript_MetadataBase obj fs path).2 = .error (eff, e) ∧ eff ≠ .buildFile :=
   ⟨{ serialize := .error .valueError }, fun _ => none, [], .serialize, .valueError, rfl, by decide⟩
 example : (Sect.node [.ok ()] [.node [.ok (), .error .typeError] []]).check = .error .typeError := rfl
+example : standardShape [.getParser, .validate, .serialize, .openW, .buildFile] = true := by decide
+example : standardShape [.validate, .openW, .getParser, .serialize, .buildFile] = false := by decide
+example : ∃ obj : DumpObj, obj.buildFail = some (1, .typeError) ∧ obj.serialize = .ok "{}".toList :=
+  ⟨{ serialize := .ok "{}".toList, buildFail := some (1, .typeError) }, rfl, rfl⟩
 
 end PM
